@@ -81,6 +81,16 @@ func (C05) Gen(r *simrt.RNG, tier string) core.Case {
 			return RCase{W: w}
 		}
 	}
+	// history: the target's own Input() set is filled by its owner (as a BuildFunc wrapper
+	// over f.Input() does), then the same call: same outcome
+	if r.Chance(1, 8) {
+		call := w.Ops[0]
+		w.Ops = []world.Op{{Kind: world.OpLoadInput, Target: call.Target}, call}
+		if r.Bool() {
+			w.Ops = append([]world.Op{call}, w.Ops...)
+		}
+		return RCase{W: w}
+	}
 	// faulty batch: some converters fail; a derivable call may then only report such an error
 	if r.Chance(1, 4) {
 		for pi := 1; pi < len(w.Parties); pi++ {
@@ -101,7 +111,7 @@ func c05History(w *world.World) bool {
 	// the last operation is the judged one; earlier ones are history (an earlier
 	// attempt with a supply missing need not be in a class itself)
 	for i := range w.Ops {
-		if w.Ops[i].Kind != world.OpCall {
+		if w.Ops[i].Kind != world.OpCall && !(w.Ops[i].Kind == world.OpLoadInput && i < len(w.Ops)-1) {
 			return false
 		}
 	}
